@@ -32,11 +32,13 @@ class Monitor:
 
 
 def make_row(k, i):
-    return {'_src': k, '_i': i, 's': str(i % 7), 'd': 'x', 'r': i, 'u1': 'p%d' % (i % 3), 'u2': 'q'}
+    # 'nn' is null in every row, 'late' is null for the first 400 rows: inference must not chase a value
+    return {'_src': k, '_i': i, 's': str(i % 7), 'd': 'x', 'r': i, 'u1': 'p%d' % (i % 3), 'u2': 'q', 'nn': None,
+            'late': None if i < 400 else 'v'}
 
 
 FIELDS = [('_src', 'integer'), ('_i', 'integer'), ('s', 'string'), ('d', 'string'), ('r', 'integer'),
-          ('u1', 'string'), ('u2', 'string')]
+          ('u1', 'string'), ('u2', 'string'), ('nn', 'string'), ('late', 'string')]
 
 
 def gen_source(mon, k, n):
@@ -65,6 +67,14 @@ def _b_filter(step, env):
     return core.dataflows.filter_rows(condition=lambda row: row['_i'] % 2 == 0)
 
 
+@core.builder('c06_validate_fn')
+def _b_vfn(step, env):
+    return core.dataflows.validate('_i', lambda v: v % 5 != 0, on_error=core.dataflows.base.schema_validator.drop)
+
+
+core.FUNCS.setdefault('drop', core.dataflows.base.schema_validator.drop)
+
+
 @core.fn('c06_sink')
 def _sink(env):
     def f(x, kwargs=None):
@@ -90,6 +100,15 @@ SYMS = {
     'dump_to_path': S('dump_to_path', {'$path': 'dump'}),
     'dump_to_path_json': S('dump_to_path', {'$path': 'dumpj'}, format='json'),
     'dump_to_zip': S('dump_to_zip', {'$path': 'o.zip'}),
+    'dump_to_path_filehash': S('dump_to_path', {'$path': 'dumph'}, add_filehash_to_path=True),
+    'dump_to_zip_json_opts': S('dump_to_zip', {'$path': 'oj.zip'}, format='json', add_filehash_to_path=True, pretty_descriptor=False,
+                               counters={'resource-hash': None}),
+    'dump_to_path_nocounters': S('dump_to_path', {'$path': 'dumpn'}, counters={'resource-bytes': None, 'datapackage-bytes': None,
+                                                                                'resource-hash': None, 'datapackage-hash': None}),
+    'set_type_on_error': S('set_type', 'u2', type='integer', resources=None, on_error={'$fn': 'drop'}),
+    'validate_fn': {'op': 'c06_validate_fn'},
+    'printer_last': S('printer', num_rows=2, last_rows=3, fields=['_i'], header_print={'$fn': 'c06_sink', 'env': True},
+                      table_print={'$fn': 'c06_sink', 'env': True}),
     'stream': S('stream', {'$path': 'st/stream.ndjson'}),
     'checkpoint': {'op': 'checkpoint_first'},
     'update_resource': {'op': 'update_resource', 'a': [None], 'k': {'title': 'T'}},
